@@ -30,6 +30,14 @@ func (p *Parser) getToken() {
 			p.ErrorRow = p.Row
 		}
 
+		// a string literal that spans lines: count its newlines once, when
+		// the token is lexed (a pushed-back token is not lexed again)
+		if p.token == base.STRING {
+			if stringValue, ok := p.Lexer.Value().(string); ok {
+				p.Row += strings.Count(stringValue, "\n")
+			}
+		}
+
 		return
 	}
 
@@ -101,12 +109,6 @@ func (p *Parser) Read() (*base.T, error) {
 	case base.STRING:
 		stringValue := p.Lexer.Value().(string)
 		t = base.MakeString(stringValue)
-
-		if p.BeforeString != stringValue {
-			// Count newlines in string and increment p.Row accordingly
-			newlineCount := strings.Count(stringValue, "\n")
-			p.Row += newlineCount
-		}
 
 		p.BeforeString = stringValue
 
